@@ -1,4 +1,5 @@
 """C06 — infer() terminates at a genuine fixpoint (propositional part here; first-order part in c06_fol)."""
+from common import size
 import streams
 from checks._propcommon import op_results, standard_programs
 
@@ -39,7 +40,7 @@ def oracle(rec):
 
 
 def run(rep, tier, seed):
-    n = 300 if tier == "quick" else 6000
+    n = size(tier, 300, 6000)
     progs = (standard_programs(seed, n // 2, "interp", n_ops=(0, 0)) +
              standard_programs(seed + 15485863, n - n // 2, "given", crossed_p=0.1, n_ops=(0, 0)))
     progs = streams.corpus_programs("C06") + progs
